@@ -348,6 +348,11 @@ class ExecutorBase:
             return sv
         if name in self.spec_env:
             return self.spec_env[name]
+        al = getattr(self, "name_alias", None)
+        if al and name in al:
+            sv = fr.lookup(al[name])        # a loop target renamed in the code: the contract's old name denotes the new variable
+            if sv is not None:
+                return sv
         return self.resolve_global(name, fr.module)
 
     def resolve_global(self, name, module: ModuleInfo) -> SV:
@@ -368,6 +373,11 @@ class ExecutorBase:
             if name in module.imports:
                 dotted = module.imports[name]
             elif name not in module.imports:
+                import builtins as _b
+                if not hasattr(_b, name):
+                    # neither a local, a module-level name, an import nor a builtin: e.g. a contract text naming a local variable that the
+                    # function no longer has (renamed). Never guessed: the function is reported as not verifiable (undecided).
+                    raise Unsupported(f"unknown name `{name}` (a contract may refer to a local variable that no longer exists)")
                 dotted = name  # builtin
             return SV(None, Ty("ext"), ("ext", dotted))
         raise Unsupported(f"name {name}")
